@@ -80,8 +80,8 @@ func (w WriterConfig) Domain() telem.TimeRange {
 
 func (w WriterConfig) Validate() error {
 	v := validate.New("domain.writer_config")
-	v.Ternary("end", w.End.Before(w.Start), "end timestamp must be after or equal to start timestamp")
-	return nil
+	v.Ternary("end", !w.End.IsZero() && w.End.Before(w.Start), "end timestamp must be after or equal to start timestamp")
+	return v.Error()
 }
 
 func (w WriterConfig) Override(other WriterConfig) WriterConfig {
